@@ -26,9 +26,12 @@ func (o GenOpts) norm() GenOpts {
 
 // GenInt draws an integer, weighted towards the limits of Annex C (32-bit).
 func GenInt(t *rapid.T) int64 {
-	switch rapid.IntRange(0, 5).Draw(t, "intClass") {
+	switch rapid.IntRange(0, 6).Draw(t, "intClass") {
 	case 0:
 		return rapid.SampledFrom([]int64{0, 1, -1, 2147483647, -2147483647, -2147483648, 10, 255, 65535, 2147483646}).Draw(t, "intEdge")
+	case 6: // beyond Annex C, but integers all the same: the limits of the 64-bit representation and of 32 bits unsigned
+		return rapid.SampledFrom([]int64{9223372036854775807, -9223372036854775808, -9223372036854775807, 4294967295, 4294967296, -4294967296,
+			9007199254740993, -9007199254740993}).Draw(t, "intEdge64")
 	case 1, 2:
 		return int64(rapid.IntRange(-1000, 1000).Draw(t, "intSmall"))
 	default:
